@@ -80,11 +80,22 @@ def c01(tier):
     b = Config(["try_from", "TryFrom", "into", "Into", ("as_str", {"mode": "table"})])
     subs = mk_subjects(decls, [("a", a), ("b", b)])
     explore(res, "%s/c01" % tier, subs, phases=["conv"])
+    if tier == "thorough":
+        # every value of the 32-bit reprs, on optimised subjects (2^32 arguments x 2 entry points per enum)
+        w = []
+        for r in ("i32", "u32"):
+            fam = family_F(r, 2, 2, 2)
+            w += [fam[i] for i in (0, 5, 20, 27, 41, 54, 62)] + family_A(r)[:2] + family_L(r)[1:]
+        wsubs = [Subj("w%03d" % i, d, b if i % 2 else a, sweep_full=True, sweep32=True, weight=5000) for i, d in enumerate(w)]
+        explore(res, "%s/c01w" % tier, wsubs, phases=["conv"], opt=True, timeout=7200)
+        res.bounds_extra = {"full_32bit_sweep_subjects": len(wsubs)}
+        subs = subs + wsubs
     finish_common(res, decls, subs,
                   "states = (enum, argument) pairs: every value of 8/16-bit reprs, B(E,R) for wider ones; "
                   "non-trivial = arguments for which a variant exists (Some). transitions = calls of "
                   "try_from/TryFrom/into/Into on the real derive's output")
     res.bounds = {"args_8_16bit": "all values of the repr", "args_wide": "B(E,R) boundary/alias alphabet",
+                  "args_32bit_thorough": "all 2^32 values on %d selected shapes (optimised build)" % getattr(res, "bounds_extra", {}).get("full_32bit_sweep_subjects", 0),
                   "configs": [a.describe(), b.describe()]}
     return res.finish()
 
@@ -238,7 +249,7 @@ def c06(tier):
                   "list is shorter than the full list")
     res.bounds = {"sigma1": "next,next_back,nth/nth_back(k) k in {0,1,2,3,usize::MAX}", "x1_depth": bounds["x1_depth"],
                   "sigma2": "next,next_back,nth(1),nth_back(1)", "x2_depth": "min(n+%d, %d)" % (bounds["x2_extra"], bounds["x2_cap"]),
-                  "consumers": 13, "large": lbounds}
+                  "consumers": 19, "large": lbounds}
     return res.finish()
 
 
